@@ -99,6 +99,10 @@ func encodings(f *u.Func) map[string]*u.Func {
 	if !f.Variadic {
 		mk("variadic", func(g *u.Func) { g.Variadic = true })
 	}
+	if len(f.Params) == 0 {
+		// no parameters <-> one empty parameter object
+		mk("pempty", func(g *u.Func) { g.Params = []u.Param{obj(nil)} })
+	}
 	if len(f.As) == 0 && len(f.Results) > 0 {
 		lr := leafResults(f)
 		robj := func(ls []u.Result) u.Result { return u.Result{Kind: u.RObject, Fields: ls} }
@@ -126,7 +130,7 @@ func encodings(f *u.Func) map[string]*u.Func {
 	return out
 }
 
-var encNames = []string{"pobj", "pnest", "pnest2", "psplit", "variadic", "rout", "rnest", "rsplit", "both"}
+var encNames = []string{"pobj", "pnest", "pnest2", "psplit", "variadic", "pempty", "rout", "rnest", "rsplit", "both"}
 
 func leavesLookup(r *h.Run) func(inst string) []u.PLeaf {
 	return func(inst string) []u.PLeaf {
@@ -231,6 +235,7 @@ func c15Units(tier string) []Unit {
 	// existing consumer of the key (the consumer registered before or after
 	// the child came to see it)
 	add("shadowing-cycles", h.Config{}, alpha{scopes: sc, ctors: []*uFunc{pA, pB, rAB, pCb}, invokes: []*uFunc{iA, iB}})
+	add("defer/zero-parameter-functions", h.Config{Defer: true}, alpha{scopes: sc, ctors: []*uFunc{rAB, pB, pA}, invokes: []*uFunc{i0, iA}})
 	add("same-type-two-names-cycles", h.Config{}, alpha{scopes: sc, ctors: []*uFunc{pA, pBaa, rAnB, pAn}, invokes: []*uFunc{iB}})
 	if !q {
 		add("defer/positional", h.Config{Defer: true}, alpha{scopes: sc, ctors: []*uFunc{pA, pB, pC, rAB}, export: true, decos: []*uFunc{dA}, invokes: []*uFunc{iA, iC}})
